@@ -1,6 +1,8 @@
 package prop
 
 import (
+	banktypes "github.com/cosmos/cosmos-sdk/x/bank/types"
+	sdkmath "cosmossdk.io/math"
 	"encoding/hex"
 	"encoding/json"
 	"fmt"
@@ -154,9 +156,13 @@ func (w *randomWorkload) Next(block int) []rig.Tx {
 	// new requests: distinct requesters per block (scope rule)
 	n := rng.Intn(5)
 	if block%17 == 0 {
-		n = len(r.Accounts) - 2 // burst: many due at one height
+		n = npick0(len(r.Accounts), w.quiet) // burst: many due at one height
 	}
-	perm := rng.Perm(len(r.Accounts) - 2)
+	npick := len(r.Accounts) - 2
+	if !w.quiet && len(r.Accounts) >= 10 {
+		npick-- // the last account is the dipping requester (below)
+	}
+	perm := rng.Perm(npick)
 	for i := 0; i < n && i < len(perm); i++ {
 		a := r.Acc(2 + perm[i])
 		interval := uint64(rng.Intn(6))
@@ -173,6 +179,21 @@ func (w *randomWorkload) Next(block int) []rig.Tx {
 			kind = "request-oracle"
 		}
 		out = append(out, r.Mk(a, &rndTag{Kind: kind, Key: fmt.Sprint(interval)}, &randomtypes.MsgRequestRandom{BlockInterval: interval, Consumer: a.Addr.String(), Oracle: oracle, ServiceFeeCap: cap}))
+	}
+	// a requester whose balance dips below the fee cap of its pending oracle request (but not below the provider's price)
+	// between the request and its due height, and is topped up again later
+	if !w.quiet && len(r.Accounts) >= 10 {
+		dip, rich := r.Acc(len(r.Accounts)-1), r.Acc(2)
+		switch block % 13 {
+		case 2:
+			out = append(out, r.Mk(dip, &rndTag{Kind: "request-oracle", Key: "dipping-requester"}, &randomtypes.MsgRequestRandom{BlockInterval: 3, Consumer: dip.Addr.String(), Oracle: true, ServiceFeeCap: sdk.NewCoins(sdk.NewInt64Coin(rig.BondDenom, 10))}))
+		case 3:
+			if bal := r.App.BankKeeper.GetBalance(r.Ctx(), dip.Addr, rig.BondDenom); bal.Amount.GT(sdkmath.NewInt(4)) {
+				out = append(out, r.Mk(dip, &rndTag{Kind: "drain"}, banktypes.NewMsgSend(dip.Addr, sdk.AccAddress([]byte("random-sink-address-")), sdk.NewCoins(sdk.NewCoin(rig.BondDenom, bal.Amount.SubRaw(4))))))
+			}
+		case 9:
+			out = append(out, r.Mk(rich, &rndTag{Kind: "top-up"}, banktypes.NewMsgSend(rich.Addr, dip.Addr, sdk.NewCoins(sdk.NewInt64Coin(rig.BondDenom, 1000)))))
+		}
 	}
 	// one transaction carrying requests of two (three) distinct requesters, signed by all of them: the requests share the
 	// transaction hash and differ in the message index only
@@ -434,6 +455,12 @@ func (w *randomWorkload) Observe(br *rig.BlockRecord) {
 				run.Count("oracle-started", 1)
 			} else {
 				run.Count("oracle-start-failed", 1)
+				// taken off the queue without being started: legitimate only if the service context could not be started
+				if cid, err := hex.DecodeString(rq.CtxID); err == nil {
+					if rc, ok := r.K.Service.GetRequestContext(r.Ctx(), cid); ok && rc.State == servicetypes.PAUSED && rc.Consumer == rq.Consumer && rc.BatchCounter == 0 {
+						run.Violation("C18:random:oracle-request-dropped-at-due-height", det, "oracle request %s of %s (due %d) was taken off the queue in block %d without its service call being started, although its request context %s is intact and paused: no seed response can ever arrive", id, rq.Consumer, rq.Due, H, rq.CtxID)
+					}
+				}
 			}
 		}
 	}
@@ -539,4 +566,11 @@ func runRandom(run *ev.Run, c int) {
 	run.Require("plain-fulfilled", 20)
 	run.Require("many-due-at-one-height", 1)
 	run.Require("oracle-fulfilled", 1)
+}
+
+func npick0(n int, quiet bool) int {
+	if !quiet && n >= 10 {
+		return n - 3
+	}
+	return n - 2
 }
